@@ -140,10 +140,10 @@ def run_property(prop: str, model: Model, tier: str, meta: dict, seed: int = 0,
             else:
                 violations.append(f)
 
-    replay_dir = VERIF / "replay"
+    replay_dir = Path(os.environ["NV_REPLAY_DIR"]) if os.environ.get("NV_REPLAY_DIR") else VERIF / "replay"
     replay_paths = []
     if violations:
-        replay_dir.mkdir(exist_ok=True)
+        replay_dir.mkdir(parents=True, exist_ok=True)
         for i, f in enumerate(violations):
             rp = replay_dir / f"{prop}-{i}.json"
             rp.write_text(json.dumps(f.to_json(prop), indent=1))
